@@ -33,7 +33,16 @@ impl SwiftField for Field79 {
         let mut lines = Vec::new();
 
         // Parse up to 35 lines of 50 characters each
-        for line in input.lines().take(35) {
+        let content = super::field_utils::content_lines(input, "Field 79")?;
+        if content.len() > 35 {
+            return Err(ParseError::InvalidFormat {
+                message: format!(
+                    "Field 79 cannot have more than 35 lines, found {}",
+                    content.len()
+                ),
+            });
+        }
+        for line in content {
             // Validate line length (max 50 characters)
             if line.len() > 50 {
                 return Err(ParseError::InvalidFormat {
